@@ -116,7 +116,7 @@ def run(R):
             e2, r = call("instruction", [])
             if r is not None:
                 got = r[0].poly()
-                R.ob("C18-opcode", "%s|%s" % (cfg, tname), got == op_o,
+                R.ob("C18-opcode", "%s|%s" % (cfg, tname), C.same_over_variants(got, op_o),
                      "%s::instruction() = %r, the MIPI DCS opcode is %r" % (tname, got, op_o),
                      sample={"type": tname, "opcode": repr(got)})
             # 3. fill_params_buf
@@ -124,7 +124,7 @@ def run(R):
             e2, r = call("fill_params_buf", [bufp])
             if r is not None:
                 v, st, res = r
-                R.ob("C18-count", "%s|%s" % (cfg, tname), v.poly() == n_o,
+                R.ob("C18-count", "%s|%s" % (cfg, tname), C.same_over_variants(v.poly(), n_o),
                      "%s::fill_params_buf returns %r, it writes %r parameter bytes" % (tname, v.poly(), n_o))
                 buf = e2.read(st, ("O", "buf"), ())
                 nmax = len(bytes_o)
@@ -132,7 +132,7 @@ def run(R):
                     cell = unfold_bits(buf.fields[i].poly())
                     if i < nmax:
                         want = bytes_o[i]
-                        R.ob("C18-param-byte", "%s|%s|byte%d" % (cfg, tname, i), cell == want,
+                        R.ob("C18-param-byte", "%s|%s|byte%d" % (cfg, tname, i), cell == want or C.same_over_variants(cell, want),
                              "%s parameter byte %d is  %r  but MIPI (big-endian) requires  %r" % (tname, i, cell, want),
                              sample={"type": tname, "byte": i, "value": repr(cell)})
                     else:
@@ -160,7 +160,7 @@ def run(R):
                         # the number of parameter bytes may depend on the command value: compare under each case
                         n_c = n_o.subst({}) if True else None
                         plen = s.ev.args[2].meta.poly() if isinstance(s.ev.args[2], Ptr) and s.ev.args[2].meta is not None else None
-                        ok = opp == op_o and plen is not None and plen == n_o
+                        ok = C.same_over_variants(opp, op_o) and plen is not None and C.same_over_variants(plen, n_o)
                         if ok and s.params is not None:
                             for i, b in enumerate(s.params):
                                 want = bytes_o[i].subst({("bit", ("i", "buf[0]", 8, False), k): 0 for k in range(8)}) if i < len(bytes_o) else None
